@@ -1365,6 +1365,10 @@ class Interp:
             return list(it)
         if isinstance(it, dict):
             return list(it.keys())
+        if isinstance(it, AbstractValue):
+            # known only through its contract: what iteration would yield is not stated there - undecided, never an
+            # exception of the program
+            raise Unsupported("iteration over %s (an abstract view of the value)" % type(it).__name__)
         if isinstance(it, SymSet):
             out = []
             for e, c in it.elements():
